@@ -583,6 +583,16 @@ func (g *Gen) heapTerm(st *State, key, sort string) string {
 		}
 		return name
 	}
+	if len(st.parents) > 0 {
+		var terms, conds []string
+		for _, pr := range st.parents {
+			terms = append(terms, g.heapTerm(pr.st, key, sort))
+			conds = append(conds, pr.cond)
+		}
+		t := g.mergeTerms("h", sort, terms, conds)
+		st.heap[key] = t
+		return t
+	}
 	name := symq("H:" + key + "@" + st.epoch)
 	if !g.declared[name] {
 		g.declared[name] = true
